@@ -43,7 +43,7 @@ OTHERS = [("zero", None), ("num", None), ("empty", None), ("eq", "same"), ("eq",
 BINARY = ["__add__", "__radd__", "__sub__", "__rsub__", "__mul__", "__rmul__", "__truediv__", "__rtruediv__",
           "__eq__", "__lt__", "__gt__", "np_compared_with", "compare_with_and_return_max"]
 UNARY = ["to", "ceil", "max", "abs", "sum", "mean", "copy", "__copy__", "__neg__", "__round__", "check",
-         "return_shifted_hourly_quantities", "generate_explainable_object_with_logical_dependency", "__len__"]
+         "return_shifted_hourly_quantities", "generate_explainable_object_with_logical_dependency", "__len__", "unit", "magnitude"]
 
 
 def unit_facts(eng, *ops):
@@ -146,8 +146,10 @@ def class_methods(kind):
     return {n.name for n in node.body if isinstance(n, ast.FunctionDef)}
 
 
-SKIP = {"__init__", "__str__", "__repr__", "plot", "to_json", "__deepcopy__", "__hash__", "iloc", "magnitude", "unit",
+SKIP = {"__init__", "__str__", "__repr__", "plot", "to_json", "__deepcopy__", "__hash__", "iloc",
         "value_as_float_list", "convert_to_utc", "round"}
+# attributes the callers' contracts read as plain properties (re-evaluated at every read, never cached)
+PROPERTIES = {("ehq", "unit"), ("eq", "magnitude"), ("empty", "magnitude")}
 
 
 def cases_for(kind, method):
@@ -240,11 +242,15 @@ def verify_all(units, only=None, engine_kw=None):
                 eng.fn = qual
                 eng.undecided(f"{qual}/no-harness", "method has no verification harness")
                 results.append((info, eng)); continue
+            want_deco = ["property"] if (kind, method) in PROPERTIES else []
             for cname, build in cases:
                 fn = f"{qual} [{cname}]"
-                def thunk(eng_, build=build, fn=fn):
+                def thunk(eng_, build=build, fn=fn, want_deco=want_deco):
                     I = Interp(eng_, units, specs=X.SPECS)
                     try:
+                        # extraction drops decorators: the call convention the contracts rely on is an obligation of its own
+                        # (a plain property is evaluated at every read; a cached one would keep a stale unit after an in-place conversion)
+                        eng_.oblige(f"{qual}/call convention: decorators {ex.decorators} are {want_deco}", ex.decorators == want_deco, kind="post")
                         run_case(I, ex.node, qual, kind, method, build)
                     except Unsupported as e:
                         eng_.undecided(f"{fn}/unsupported", str(e))
